@@ -68,14 +68,14 @@ def stage_lean(res, pid, thorough):
             if "sorryAx" in a or bad:
                 broken.append((f"theorem {t} depends on non-permitted axioms {sorted(a)}", ""))
                 continue
-            per[t] = sorted(a)
+            per[t] = summarize_axioms(a)
             axioms_used |= a
             discharged += 1
         cov["axioms_per_theorem"] = per
     cov["discharged"] = discharged
-    tb = ["Lean 4.33.0 kernel", "axioms: " + ", ".join(sorted(axioms_used)) if axioms_used else "no axioms"]
+    tb = ["Lean 4.33.0 kernel", "axioms: " + ", ".join(summarize_axioms(axioms_used)) if axioms_used else "no axioms"]
     if any(T.allowed_extra_axiom(a) for a in axioms_used):
-        tb.append("bv_decide: Lean.ofReduceBool / Lean.trustCompiler (+ bundled CaDiCaL, LRAT checker compiled natively)")
+        tb.append("bv_decide (bit-vector lemmas only): Lean.ofReduceBool / Lean.trustCompiler + one `_native.bv_decide.ax_*` per call; trusts the bundled CaDiCaL + the natively compiled LRAT checker")
     cov["trusted_base"] = tb + spec.get("trusted", [])
     if thorough and module and not broken:
         ok2, l2 = hh.leanchecker(module)
@@ -84,6 +84,14 @@ def stage_lean(res, pid, thorough):
             broken.append((f"leanchecker rejected {module}", l2[-1500:]))
     res.proof_broken = broken
     return not broken
+
+
+def summarize_axioms(axs):
+    """collapse the per-call bv_decide axioms into `lemma (n bv_decide calls)`"""
+    import collections
+    plain = sorted(a for a in axs if "_native.bv_decide.ax" not in a)
+    cnt = collections.Counter(a.split("._native.bv_decide.ax")[0] for a in axs if "_native.bv_decide.ax" in a)
+    return plain + [f"bv_decide@{k} x{v}" for k, v in sorted(cnt.items())]
 
 
 # --------------------------------------------------------------------------------------------
